@@ -14,7 +14,7 @@
 import Lumina.Proofs.DecodersRows
 import Lumina.Spec.C16
 import Lumina.Gen.C16
-import Lumina.Props.C03
+import Lumina.Proofs.DecodersHeader
 
 namespace Lumina.Props.C16
 open Lumina.Util Lumina.Model.Eds Lumina.Model.Decoders Lumina.Proofs.Decoders
@@ -340,23 +340,20 @@ theorem no_panic_eds_response_first_encode (c : Codec) (rawLen : Nat) (row : Lis
 
 /-! ## ExtendedHeader -/
 
-/-- `ExtendedHeader::try_from(raw)` (conversion + `validate`): with the validator set as tendermint builds it
-    (total = sum of powers ≤ `MAX_TOTAL_VOTING_POWER`) the only arithmetic in lumina's part, the voting-power
-    tally of `verify_commit_light`, cannot overflow (C03 `light_no_panic`) -/
-theorem no_panic_extended_header (sigOk : Nat → Nat → Bool) (parts : Option EhParts)
-    (hwf : ∀ p, parts = some p → p.valset.wf = true) : NoPanic (ehDecodeValidate sigOk parts) := by
-  rw [noPanic_iff]
-  unfold ehDecodeValidate
-  cases parts with
-  | none => rfl
-  | some p =>
-    simp only
-    unfold ehValidate
-    repeat' split
-    all_goals first
-      | rfl
-      | (rename_i hpanic; exact absurd hpanic (Lumina.Props.C03.light_no_panic sigOk 2 3 p.valset _ _ _ (hwf p rfl)))
+open Lumina.Model.HeaderVerify in
+/-- PARTIAL: `ExtendedHeader::validate` (what `TryFrom<RawExtendedHeader>` / `decode_and_validate` run after the
+    third-party conversions), in group E's field-level model that C01 and the `ehv` ops of this property tie to the
+    real code: for every header, commit, DAH, hash and signature oracle and every set of constants the outcome is
+    never a panic — PROVIDED the validator set is as tendermint builds it (`total` = sum of the powers ≤
+    `MAX_TOTAL_VOTING_POWER`; the hypothesis `wf`).  The one arithmetic step of lumina's part, the `u64` tally of
+    `verify_commit_light`, then cannot overflow (`verifyCommitLight_ne_panic`, the same fact as C03 `light_no_panic`).  Without the hypothesis the statement is false
+    (C03 has the overflow witness for a hand-built set), hence `_partial`; the conversions themselves (tendermint,
+    prost) are assumed panic-free and only fuzzed (`eh` ops). -/
+theorem no_panic_extended_header_validate_partial {S : Type} (P : Prims S) (c : Consts) (eh : ExtHeader S)
+    (hwf : eh.valset.toValSet.wf = true) : validate P c eh ≠ .panic :=
+  validate_ne_panic P c eh hwf
 
+/-- a validator set that meets the hypothesis -/
 example : (⟨[⟨[1], 5⟩, ⟨[2], 7⟩], 12, true⟩ : Lumina.Model.Commit.ValSet).wf = true := by decide
 
 end Lumina.Props.C16
